@@ -1312,6 +1312,10 @@ Fixpoint eval (fuel : nat) (e : expr) (ro : bool) (vs : vars) (ctx : list ptr) (
             match ctx with
             | [] => Unsup
             | _ =>
+                (* yq evaluates entry by entry over ALL context nodes (each entry is a createMap over the context, joined by
+                   `,`); this model goes node by node.  The two orders differ only when an entry, evaluated in a writable
+                   context, vivifies something a later node or entry sees: several nodes in a writable context are outside the model *)
+                if negb ro && (1 <? length ctx)%nat then Unsup else
                 each (fun c st0 =>
                         let* r := obj_entries ev ro vs c es [] st0 in
                         each (fun m st2 => one (alloc_fresh st2 (Map m))) (fst r) (snd r)) ctx st
